@@ -45,6 +45,9 @@ def anchors() -> Dict[str, Set[str]]:
         out.setdefault("C03", set()).update({"xitorch/_impls/optimize/root/_jacobian.py"})
         out.setdefault("C01", set()).update({"xitorch/_impls/optimize/root/_jacobian.py", "xitorch/_impls/optimize/root/rootsolver.py"})
         out.setdefault("C14", set()).update({"xitorch/_impls/interpolate/base_interp.py"})
+        import glob
+        allfiles = {os.path.relpath(pth, "/repo") for pth in glob.glob("/repo/xitorch/**/*.py", recursive=True) if "/_tests/" not in pth}
+        out.setdefault("C19", set()).update(allfiles)          # a leak can hide in any module
         for k in ("C02", "C04", "C08", "C13", "C16"):
             out.setdefault(k, set()).update({"xitorch/_core/pure_function.py", "xitorch/_core/editable_module.py", "xitorch/_utils/misc.py"})
         _ANCHORS = out
@@ -107,10 +110,63 @@ def state_writes(fi: FuncInfo) -> List[Tuple[str, ast.AST]]:
                     any(isinstance(t, (ast.Attribute, ast.Subscript)) for t in n.targets):
                 escapes = True
 
+    # simple aliases of instance attributes / parameter attributes: `buf = self._merged`, `memo = A.__dict__.setdefault(..)`
+    fdefs: Dict[str, list] = {}
+    for n_ in own_nodes(fn):
+        if isinstance(n_, ast.Assign):
+            for t_ in n_.targets:
+                if isinstance(t_, ast.Name):
+                    fdefs.setdefault(t_.id, []).append(n_.value)
+        elif isinstance(n_, ast.AnnAssign) and isinstance(n_.target, ast.Name) and n_.value is not None:
+            fdefs.setdefault(n_.target.id, []).append(n_.value)
+        elif isinstance(n_, (ast.For, ast.With, ast.AugAssign)):
+            for x_ in ast.walk(n_.target if isinstance(n_, (ast.For, ast.AugAssign)) else ast.Module(body=[], type_ignores=[])):
+                if isinstance(x_, ast.Name) and isinstance(n_, ast.For):
+                    fdefs.setdefault(x_.id, []).extend([None, None])       # loop variables are not aliases
+    params_all = set()
+    a_ = fn.args
+    for x_ in a_.posonlyargs + a_.args + a_.kwonlyargs:
+        params_all.add(x_.arg)
+    # the autograd context of forward/backward is a per-call object, not state (outputs stored on it are AC8's business)
+    if is_static and fi.cls is not None and fi.name in ("forward", "backward") and fn.args.args:
+        params_all.discard(fn.args.args[0].arg)
+    alias: Dict[str, str] = {}
+    for nm, ds in fdefs.items():
+        if len(ds) != 1 or nm in params_all or ds[0] is None:
+            continue
+        d = ds[0]
+        while isinstance(d, ast.Call) and isinstance(d.func, ast.Attribute) and d.func.attr in ("setdefault", "get") :
+            d = d.func.value
+        r0 = _root_name(d)
+        if isinstance(d, ast.Attribute) and isinstance(r0, ast.Name) and (r0.id in selfish or (r0.id in params_all and r0.id not in selfish)):
+            alias[nm] = ast.unparse(d)
+
     def classify_target(t: ast.AST, node: ast.AST, mut: str = ""):
         root = _root_name(t)
         if not isinstance(root, ast.Name):
             return
+        if root.id in alias and (isinstance(t, ast.Subscript) or mut):
+            tgt = alias[root.id]
+            r1 = tgt.split(".")[0]
+            if r1 in selfish:
+                if not (in_ctor and r1 == first):
+                    out.append(("attr:self.%s[]%s (via local alias)" % (".".join(tgt.split(".")[1:]), mut), node))
+            else:
+                out.append(("argattr:%s[]%s (via local alias)" % (tgt, mut), node))
+            return
+        # attribute of a (non-self) parameter: the caller's object is modified
+        if root.id in params_all and root.id not in selfish and isinstance(t, (ast.Attribute, ast.Subscript)):
+            e = t
+            sub = ""
+            while isinstance(e, ast.Subscript):
+                e = e.value
+                sub = "[]"
+            if isinstance(e, ast.Attribute):
+                out.append(("argattr:%s%s%s" % (ast.unparse(e), sub, mut), node))
+                return
+            if isinstance(e, ast.Name) and (sub or mut):
+                out.append(("argmut:%s%s%s" % (e.id, sub, mut), node))
+                return
         # attribute of self / cls
         if isinstance(t, (ast.Attribute, ast.Subscript)) and root.id in selfish:
             if in_ctor and root.id == first and not mut:
@@ -160,6 +216,9 @@ def state_writes(fi: FuncInfo) -> List[Tuple[str, ast.AST]]:
             fnm = ast.unparse(n.func)
             if fnm in ("setattr", "delattr", "object.__setattr__", "object.__delattr__") and n.args:
                 out.append(("%s:%s" % (fnm.split(".")[-1].strip("_"), ast.unparse(n.args[0])), n))
+            elif isinstance(n.func, ast.Attribute) and n.func.attr in MUT_METHODS and isinstance(_root_name(n.func.value), ast.Name) and \
+                    (_root_name(n.func.value).id in alias or (_root_name(n.func.value).id in params_all and _root_name(n.func.value).id not in selfish)):
+                classify_target(n.func.value, n, mut=".%s()" % n.func.attr)
             elif isinstance(n.func, ast.Attribute) and n.func.attr in MUT_METHODS:
                 recv = n.func.value
                 root = _root_name(recv)
